@@ -1,7 +1,4 @@
 // Change-tracking wrappers (src/storage/flagged.rs, deref_flagged.rs): vocabulary.
-pub trait BitSetLike {
-    spec fn bview(&self) -> Set<u32>;
-}
 pub trait Component: Sized {
     type Storage: UnprotectedStorage<Self>;
 }
